@@ -17,6 +17,8 @@ pub enum Pipe {
   SubscribeOnMap,
   SubscribeOnTake1,
   SubscribeOnObserveOn,
+  /// `observe_on(..).tap(first item: sleep 1 ms)`: a consumer that is slow at its first item
+  ObserveOnSlowFirst,
 }
 
 fn build(p: Pipe, src: Observable<'static, i64>) -> Observable<'static, i64> {
@@ -31,6 +33,15 @@ fn build(p: Pipe, src: Observable<'static, i64>) -> Observable<'static, i64> {
     Pipe::SubscribeOnMap => src.subscribe_on(nt()).map(|x| x),
     Pipe::SubscribeOnTake1 => src.subscribe_on(nt()).take(1),
     Pipe::SubscribeOnObserveOn => src.subscribe_on(nt()).observe_on(nt()),
+    Pipe::ObserveOnSlowFirst => src.observe_on(nt()).tap(
+      |x: i64| {
+        if x == 1 {
+          another_rxrust::vstd::thread::sleep(std::time::Duration::from_millis(1));
+        }
+      },
+      |_| {},
+      || {},
+    ),
   }
 }
 
@@ -297,9 +308,26 @@ pub fn scenarios() -> Vec<Scn> {
       v.push(pipe_scn(p, burst.clone(), false, false, Some(1), Some(2)));
       v.push(pipe_scn(p, burst, true, false, Some(1), Some(1)));
     }
+    // ... and one beyond the usual powers of two a back-log threshold might be set to (seed C09-h)
+    if matches!(p, Pipe::ObserveOn) {
+      let long: Vec<Emit<i64>> = (1..=1100).map(N).chain(std::iter::once(C)).collect();
+      let mut s = pipe_scn(p, long, false, false, Some(0), Some(1));
+      s.min_conflicts = 1; // quick tier: the default schedule only
+      s.cfg.max_steps = 200_000;
+      v.push(s);
+    }
     // re-subscription of the same Observable value
     v.push(twice_scn(p, vec![N(1), N(2), C], false, Some(1), Some(2)));
     v.push(twice_scn(p, vec![N(1), E(7)], true, None, Some(2)));
+  }
+  // the long burst again, with a consumer that is slow at its first item (the back-log builds up
+  // behind a worker that is asleep, not behind one that was never scheduled)
+  {
+    let long: Vec<Emit<i64>> = (1..=1100).map(N).chain(std::iter::once(C)).collect();
+    let mut s = pipe_scn(Pipe::ObserveOnSlowFirst, long, false, false, Some(0), Some(1));
+    s.min_conflicts = 1;
+    s.cfg.max_steps = 200_000;
+    v.push(s);
   }
   v.push(feedback_scn(false, Some(2), Some(3)));
   v.push(feedback_scn(true, Some(2), Some(3)));
